@@ -148,7 +148,7 @@ def _row_members(row):
     return row[:k], all(x == INT_FILL for x in row[k:])
 
 
-def check_c03(grid, faces, n_node, v=None, supplied_edges=None):
+def check_c03(grid, faces, n_node, v=None, supplied_edges=None, suffix_required=True):
     """Requires a manifold face list."""
     v = v or V()
     P = "c03"
@@ -181,7 +181,9 @@ def check_c03(grid, faces, n_node, v=None, supplied_edges=None):
                 bad = []
                 for n in range(n_node):
                     mem, suffix = _row_members(a[n])
-                    if not suffix:
+                    if not suffix_required:
+                        mem = [int(x) for x in a[n] if x != INT_FILL]
+                    if not suffix and suffix_required:
                         bad.append((n, "padding not at row end"))
                     elif sorted(mem) != sorted(want[n]) or len(set(mem)) != len(mem):
                         bad.append((n, mem, sorted(want[n])))
@@ -232,7 +234,9 @@ def check_c03(grid, faces, n_node, v=None, supplied_edges=None):
                 bad = []
                 for fi in range(F):
                     mem, suffix = _row_members(a[fi])
-                    if not suffix:
+                    if not suffix_required:
+                        mem = [int(x) for x in a[fi] if x != INT_FILL]
+                    if not suffix and suffix_required:
                         bad.append((fi, "padding not at row end", [int(x) for x in a[fi]]))
                     elif sorted(mem) != sorted(want[fi]):
                         bad.append((fi, mem, sorted(want[fi])))
